@@ -234,7 +234,12 @@ impl CoverageFormat2<'_> {
             .ok()
             .map(|idx| {
                 let rec = &self.range_records()[idx];
-                rec.start_coverage_index() + gid.to_u16() - rec.start_glyph_id().to_u16()
+                // the binary search guarantees start_glyph_id <= gid, so the
+                // subtraction cannot underflow; it must happen before the
+                // addition, which would otherwise overflow for valid tables.
+                // A malformed start_coverage_index wraps instead of panicking.
+                let offset_in_range = gid.to_u16() - rec.start_glyph_id().to_u16();
+                rec.start_coverage_index().wrapping_add(offset_in_range)
             })
     }
 
